@@ -21,7 +21,9 @@ impl CPUEmulator {
             let d = Self::cast::<Gain>(data);
 
             let segment = d.segment;
-            self.stm_segment = segment;
+            if (d.flag & GAIN_FLAG_UPDATE) == GAIN_FLAG_UPDATE {
+                self.stm_segment = segment;
+            }
 
             let data = std::slice::from_raw_parts(
                 data[std::mem::size_of::<Gain>()..].as_ptr() as *const u16,
